@@ -1,0 +1,21 @@
+//go:build verif
+// +build verif
+
+package gmtls
+
+import "hash"
+
+// Hooks for the verification harness (build tag "verif" only; property C04, harness/c04hmac.go).
+
+// VerifPHash exposes pHash (prf.go): fills result with P_hash(secret, seed).
+func VerifPHash(result, secret, seed []byte, h func() hash.Hash) { pHash(result, secret, seed, h) }
+
+// VerifPrfGM exposes the PRF used for VersionGMSSL, prfAndHashForGM() = prf12(sm3.New).
+func VerifPrfGM(result, secret, label, seed []byte) { prfAndHashForGM()(result, secret, label, seed) }
+
+// VerifMacSM3 returns the MAC method of one macSM3 object (tls10MAC over hmac.New(sm3.New, key)), as the
+// record layer holds it for one direction of a connection, together with its Size.
+func VerifMacSM3(key []byte) (mac func(digestBuf, seq, header, data, extra []byte) []byte, size int) {
+	m := macSM3(VersionGMSSL, key)
+	return m.MAC, m.Size()
+}
